@@ -60,6 +60,29 @@ func popWorker(args map[string]any, fn func(keyName string, count int) (values [
 	return
 }
 
+// converts the timeout argument of a blocking command (seconds) into
+// nanoseconds, where 0 means wait without a limit; a timeout that is negative
+// or too large for the clock is refused with redis's error texts
+func blockTimeoutNs(timeout float64) (timeoutNs int64, errText respErrorString) {
+	if !(timeout >= 0) {
+		errText = "ERR timeout is negative"
+		return
+	}
+	if timeout > maxBlockTimeoutSeconds {
+		errText = "ERR timeout is out of range"
+		return
+	}
+	timeoutNs = int64(timeout * float64(time.Second))
+	if timeoutNs == 0 && timeout > 0 {
+		// too small to express: still a timeout, not "forever"
+		timeoutNs = 1
+	}
+	return
+}
+
+// about a hundred years; the deadline must stay representable
+const maxBlockTimeoutSeconds = 3153600000
+
 func popMultiKeyWorker(ctx *cmdContext, args map[string]any, fn func(keyName string, count int) (values [][]byte, err *respErrorString)) (output respValue) {
 	timeout := args["timeout"].(float64)
 	keyNamesArg := args["key"].([]any)
@@ -69,7 +92,11 @@ func popMultiKeyWorker(ctx *cmdContext, args map[string]any, fn func(keyName str
 		keyNames = append(keyNames, keyName.(string))
 	}
 
-	timeoutNs := int64(timeout * float64(time.Second))
+	timeoutNs, errText := blockTimeoutNs(timeout)
+	if errText != "" {
+		output.data = errText
+		return
+	}
 	output = blockOnListChangeMultiKey(
 		ctx, keyNames, timeoutNs,
 		func() (output respValue) {
@@ -387,7 +414,11 @@ func fnBLMove(ctx *cmdContext, args map[string]any) (output respValue, err error
 	srcKeyName := args["source"].(string)
 	timeout := args["timeout"].(float64)
 
-	timeoutNs := int64(timeout * float64(time.Second))
+	timeoutNs, errText := blockTimeoutNs(timeout)
+	if errText != "" {
+		output.data = errText
+		return
+	}
 	output = blockOnListChange(ctx, srcKeyName, timeoutNs, func() (output respValue) {
 		output, _ = fnLMove(ctx, args)
 		return
@@ -404,7 +435,11 @@ func fnBLMPop(ctx *cmdContext, args map[string]any) (output respValue, err error
 		keyNames = append(keyNames, keyName.(string))
 	}
 
-	timeoutNs := int64(timeout * float64(time.Second))
+	timeoutNs, errText := blockTimeoutNs(timeout)
+	if errText != "" {
+		output.data = errText
+		return
+	}
 	output = blockOnListChangeMultiKey(ctx, keyNames, timeoutNs, func() (output respValue) {
 		output, _ = fnLMPop(ctx, args)
 		return
@@ -426,7 +461,11 @@ func fnBRPopLPush(ctx *cmdContext, args map[string]any) (output respValue, err e
 	timeout := args["timeout"].(float64)
 	srcKeyName := args["source"].(string)
 
-	timeoutNs := int64(timeout * float64(time.Second))
+	timeoutNs, errText := blockTimeoutNs(timeout)
+	if errText != "" {
+		output.data = errText
+		return
+	}
 	output = blockOnListChange(ctx, srcKeyName, timeoutNs, func() (output respValue) {
 		output, _ = fnRPopLPush(ctx, args)
 		return
